@@ -119,6 +119,19 @@ def expand(job):
     elif k == "since":
         for _ in range(job["n"]):
             sp = gen.spelling(rnd)
+            if rnd.random() < 0.15:
+                from harness import refcal as R
+                from harness.common import tp_rec
+                m_ = MEANING[sp]
+                y_ = rnd.choice([1967, 1968, 1969, 1970, 1900, 2023, 2024, 2100, 1600, 1])
+                mo_ = rnd.choice([2, 3, 3, 1, 12, 6])
+                n_ = R.daynum(m_, y_, mo_, 1) + rnd.choice([0, 0, -1, -1, 1, R.dim(m_, y_, mo_) - 1])
+                rep_ = rnd.choice(["cal", "cal", "ord", "week"])
+                yy_, a_, b_ = R.date_of(m_, rep_, n_)
+                z_ = rnd.choice([(0, 0), (5, 0), (-5, 0), (40, 0), (-3, -30), (13, 45)])
+                yield {"kind": "since", "mode": sp, "p": tp_rec(rep_, yy_, a_, b_, sod=rnd.choice([DAY, DAY, 0, 7200, 36000, 86399]), zh=z_[0], zm=z_[1],
+                                                                 xd=2 if yy_ < 0 else 0)}
+                continue
             yield {"kind": "since", "mode": sp, "p": gen.rand_point(rnd, MEANING[sp], wide=rnd.random() < 0.2, whole=rnd.random() < 0.9,
                                                                      allow24=rnd.random() < 0.2)}
     else:
